@@ -178,6 +178,16 @@ def run_impl(case):
                     res = TwoPhaseReservoir(nx_arg, pf0, case["pi"], fp, case["two_phase_sw"])
                 else:
                     res = SinglePhaseReservoir(nx_arg, pf0, case["pi"], fp)
+                if case.get("sweep") and not case.get("reassign") and case.get("two_phase_sw") is None:
+                    # a drawdown sweep on ONE object: an earlier run with another frac-face pressure on the same grid, whose stored
+                    # field and returned recoveries the caller KEEPS (no copy) while it goes on to the run of this case
+                    pf_e = 0.5 * (pf0 + case["pi"])
+                    res.pressure_fracface = pf_e
+                    res.simulate(t.copy())
+                    out["earlier"] = dict(pf=pf_e, field_ref=res.pseudopressure, field_copy=np.array(res.pseudopressure, float), m_f=float(fp.m_scaled_func(pf_e)))
+                    rf_e = res.recovery_factor()
+                    out["earlier"].update(rf_ref=rf_e, rf_copy=np.array(rf_e, float))
+                    res.pressure_fracface = pf0
                 if sched is None:
                     res.simulate(t)
                 else:
@@ -418,6 +428,8 @@ def gen_cases(rng, n, quick=True, kinds=("single", "ideal"), nx_choices=None, nt
             case["reassign"] = True
         if k % 9 == 4:
             case["two_phase_sw"] = [0.25, 0.1, 1e-3][(k // 9) % 3]
+        if k % 6 == 2 and not case.get("reassign") and case.get("two_phase_sw") is None:
+            case["sweep"] = True
         if k % 8 in (2, 6) and k % 16 != 2:
             case["reverse_rows"] = True
         if rng.random() < sched_prob:
